@@ -220,6 +220,29 @@ fn oracle_c02(case: &Case, outs: &[ImplRes]) -> Result<(), String> {
                     }
                 }
             }
+        } else if op == "rdr" {
+            // the frame must lie within the bytes between two resetting source events (a frame is never glued
+            // together across an I/O error / end-of-input report)
+            let toks: Vec<&str> = line.split(' ').collect();
+            let kind = toks[1];
+            let mut segs: Vec<Vec<u8>> = vec![vec![]];
+            for t in &toks[4..] {
+                let resets = t.starts_with('O') || t.starts_with('E') || (*t == "I" && kind != "io");
+                if resets {
+                    segs.push(vec![]);
+                } else if *t != "W" && *t != "I" {
+                    segs.last_mut().unwrap().extend(untok(t).ok_or("bad token")?);
+                }
+            }
+            for e in items(o.text) {
+                if let Some(h) = e.strip_prefix("ok:") {
+                    let m = unhex(h).ok_or("bad hex")?;
+                    let f = spec::frame(&m);
+                    if !segs.iter().any(|sg| spec::contains(sg, &f)) {
+                        return Err(format!("reader reported payload {} whose canonical frame does not occur between two resetting source events", h));
+                    }
+                }
+            }
         } else {
             for e in items(o.text) {
                 if let Some(h) = e.strip_prefix("ok:") {
@@ -293,11 +316,44 @@ fn oracle_c17(case: &Case, outs: &[ImplRes]) -> Result<(), String> {
     Ok(())
 }
 
-/// the reader consumes bytes lazily; every result corresponds to a definite number of consumed
-/// bytes only for decode results.  We check the weaker, position-free form: the counts attached to
-/// I/O errors and discarded reports plus the lengths of delivered / rejected frames sum to the
-/// number of bytes consumed when the input is exhausted.
-fn tile_check_reader(_evs: &[&str], _out: &str) -> Result<(), String> {
+/// Reader byte accounting (position-free form): when the input has been read to its end, the lengths of
+/// the delivered frames plus all discarded-bytes counts plus the counts attached to I/O errors must
+/// add up to the number of bytes the source delivered.  Rejected frames (invalid message / escape /
+/// out of memory) do not report their length, so streams with such results are skipped.
+fn tile_check_reader(evs: &[&str], out: &str) -> Result<(), String> {
+    let mut total = 0usize;
+    for t in evs {
+        if matches!(*t, "W" | "I") || t.starts_with('O') || t.starts_with('E') {
+            continue;
+        }
+        total += untok(t).map(|b| b.len()).unwrap_or(0);
+    }
+    // a mid-stream end-of-input report with nothing pending also looks idle: only streams whose single
+    // end of input is the real one are checked
+    if evs.iter().any(|t| t.starts_with('E')) {
+        return Ok(());
+    }
+    let its = items(out);
+    // the run must have reached the end of the input: the last answer is an idle one
+    match its.last().map(|s| s.as_str()) {
+        Some("none") | Some("io:eof:0") => {}
+        _ => return Ok(()),
+    }
+    let mut sum = 0usize;
+    for t in &its {
+        if let Some(h) = t.strip_prefix("ok:") {
+            sum += spec::frame(&unhex(h).ok_or("bad hex")?).len();
+        } else if let Some(n) = t.strip_prefix("disc:") {
+            sum += n.parse::<usize>().map_err(|_| "bad count")?;
+        } else if t.starts_with("io:") {
+            sum += t.rsplit(':').next().and_then(|n| n.parse::<usize>().ok()).ok_or("bad count")?;
+        } else if t.starts_with("inv:") || t.starts_with("esc:") || t == "oom" {
+            return Ok(());
+        }
+    }
+    if sum != total {
+        return Err(format!("reader accounted for {} of the {} bytes the source delivered (frames + discarded counts + I/O error counts)", sum, total));
+    }
     Ok(())
 }
 
